@@ -25,6 +25,7 @@ func (b *packetAccumulator) add(p *Packet) (ps []*Packet) {
 
 	// Empty buffer if we detect a discontinuity
 	if hasDiscontinuity(mps, p) {
+		verifAcc(b.pid, p.Header.ContinuityCounter, "discontinuity")
 		// Reset current slice or make new
 		if cap(mps) > 0 {
 			mps = mps[:0]
@@ -35,11 +36,13 @@ func (b *packetAccumulator) add(p *Packet) (ps []*Packet) {
 
 	// Throw away packet if it's the same as the previous one
 	if isSameAsPrevious(mps, p) {
+		verifAcc(b.pid, p.Header.ContinuityCounter, "duplicate")
 		return
 	}
 
 	// Flush buffer if new payload starts here
 	if p.Header.PayloadUnitStartIndicator {
+		verifAcc(b.pid, p.Header.ContinuityCounter, "flush-pusi")
 		ps = mps
 		mps = make([]*Packet, 0, cap(mps))
 	}
@@ -50,6 +53,7 @@ func (b *packetAccumulator) add(p *Packet) (ps []*Packet) {
 	if b.programMap != nil &&
 		(b.pid == PIDPAT || b.programMap.existsUnlocked(b.pid)) &&
 		isPSIComplete(mps) {
+		verifAcc(b.pid, p.Header.ContinuityCounter, "flush-psi-complete")
 		ps = mps
 		mps = nil
 	}
